@@ -36,6 +36,7 @@ ASSUMPTIONS = [
     "queries are strictly inside the footprint (convex combinations with all weights > 0)",
     "float32 features: the residuals of score_feature_matrix are single-precision quantities (tolerance 100 eps_32); distances stay double because the target is",
 ]
+RULE = RULE + " " + forms.RULE_SUFFIX
 
 
 def gen(rng, tier, index):
